@@ -535,7 +535,7 @@ pub fn record(seed: u64, tier: &str, out: &str) {
             }
         }
     }
-    let runs = if thorough { 200 } else { 40 };
+    let runs = if thorough { 100 } else { 40 };
     let mut items_written = 0u64;
     let mut boundary_starts = 0u64; // writes that started within 45 bytes of the buffer boundary
     let mut rt_runs = 0u64;
@@ -552,7 +552,7 @@ pub fn record(seed: u64, tier: &str, out: &str) {
         let mut all_items: Vec<Item> = vec![];
         let mut reported = 0usize;
         let mut fill = 0usize; // what the buffer fill level would be in the optimised profile (for targeting only)
-        let n_ops = if thorough { 300 } else { 120 };
+        let n_ops = if thorough { 200 } else { 120 };
         let mut emit = |t: &mut TraceWriter, w: &mut Writer, it: Item, fill: &mut usize| -> bool {
             let js = item_json(&it);
             let len = rendered_len(&it);
